@@ -1,9 +1,11 @@
 #!/bin/sh
-# usage: seedspec.sh <patch.diff> <spec> <job-regex> <outfile>  -- apply the patch, emit the unit (AST + C), revert at once, let cbmc run in the background
-P="$1"; SPEC="$2"; RE="$3"; OUT="$4"
+# usage: seedspec.sh <patch.diff> <spec> <job-regex> <outfile>
+# applies the patch to a SCRATCH worktree (/tmp/wt/seedrepo, created with `git -C /repo worktree add --detach`), runs the
+# selected jobs against it (YAKUSHIMA_REPO), reverts the scratch tree once the unit is emitted. /repo itself is not touched.
+P="$1"; SPEC="$2"; RE="$3"; OUT="$4"; S=/tmp/wt/seedrepo
 cd /verif
-git -C /repo apply "$P" || { echo "patch does not apply"; exit 3; }
-( python3 tools/yspec.py "$SPEC" "$RE" > "$OUT" 2>&1 & )
+git -C $S checkout -- . ; git -C $S apply "$P" || { echo "patch does not apply"; exit 3; }
+( YAKUSHIMA_REPO=$S Y_NO_CACHE=1 python3 tools/yspec.py "$SPEC" "$RE" > "$OUT" 2>&1 & )
 for i in $(seq 1 600); do grep -q "^emitted\|EXTRACTION\|Traceback" "$OUT" 2>/dev/null && break; sleep 1; done
-git -C /repo checkout -- . ; git -C /repo status --short | grep -v _build
+git -C $S checkout -- .
 head -2 "$OUT"
